@@ -158,6 +158,9 @@ def trigLines (env : Env) (s0 : App) (b : Block) : List String := Id.run do
   let mut incs : List (Signer × Nat) := []
   let mut res : List String := if Trig.lastValidatorJailed s1 s2 then ["TRIG -1 D16"] else []
   let mut i := 0
+  match App.beforeEnd env s0 b with
+  | .ok (_, sp) => if Trig.zeroShadow sp then res := res ++ ["TRIG -1 D6"]
+  | .error _ => pure ()
   for tx in b.txs do
     let pre := s
     let r := App.runTx env s incs tx
